@@ -48,13 +48,17 @@ def run(ctx):
   units += [dict(part='remote-object'), dict(part='iterators')]
   units += [dict(part='shutdown', at=a, how=h) for a in (0, 1, 2)
             for h in ('stop', 'client-shutdown', 'request')]
+  # the shutdown request arrives *while* a call is being served (the call then
+  # fails: at even, or succeeds: at odd), at each position of the history
+  units += [dict(part='shutdown', at=a, how='mid-call') for a in range(8)]
   ctx.rule = (
       f'{n} lazy expressions (grammar depth <= {depth}: add/mul/Box call, attr, '
       'item, nested chains, kwargs, cached calls at the root and nested, five '
       'kinds of raising expressions), each evaluated locally and through '
       'CourierClient.get_result; 9 RemoteObject chains; remote iterators / '
       'RemoteIterator / RemoteIteratorQueue over sources of length 0-3; shutdown '
-      'requested at each point of a 3-call history in 3 ways; plus two clients '
+      'requested at each point of a 3-call history in 3 ways and in the middle '
+      'of a failing / succeeding call at each position; plus two clients '
       'x 3 calls against one server under delay bound '
       f'{1 if ctx.quick else 2} (LRU cache fields hooked). distinct = distinct '
       '(part, expression)')
